@@ -145,9 +145,9 @@ func ownDetail(l gen.Layer, decoded bool) []string {
 		if decoded {
 			// No decoder is registered for withStack: it always arrives as
 			// an opaque wrapper whose entry shows the stack as text.
-			return []string{"(opaque error wrapper)", "withstack.withStack", "verif/gen."}
+			return []string{"(opaque error wrapper)", "withstack.withStack", ".go:"}
 		}
-		return []string{"attached stack trace", "-- stack trace:", "verif/gen."}
+		return []string{"attached stack trace", "-- stack trace:", ".go:"}
 	case "*assert.withAssertionFailure":
 		return []string{"assertion failure"}
 	case "*barriers.barrierErr":
